@@ -22,16 +22,17 @@ FEATURES = [
     # Leaf level
     "alias-real", "leaf-int", "alias-int", "alias-bool", "leaf-array", "leaf-array-for",
     "leaf-constant", "leaf-discrete", "leaf-input", "leaf-output", "leaf-ieq",
-    "leaf-ext1", "leaf-ext2", "leaf-ext3", "leaf-two-ext", "leaf-sub",
+    "leaf-ext1", "leaf-ext2", "leaf-ext3", "leaf-two-ext", "leaf-sub", "leaf-io-alias",
     # Mid level
-    "mid-third", "mid-inner", "mid-ext", "mid-param", "mid-input", "mid-output", "mid-ieq", "mid-deepref",
+    "mid-third", "mid-inner", "mid-inner-ext", "mid-inner-two", "mid-ext", "mid-param", "mid-input", "mid-output", "mid-ieq",
+    "mid-deepref", "mid-io-alias",
     # Top level
     "top-two-mid", "top-leaf", "top-input", "top-output", "top-param", "top-const", "top-discrete",
     # structure
     "pkg", "pkg-split", "depth4",
 ]  # fmt: skip
 
-REQUIRES = {"mid-deepref": {"leaf-sub"}, "leaf-ext2": {"leaf-ext1"}, "leaf-ext3": {"leaf-ext2", "leaf-ext1"}, "pkg-split": {"pkg"}, "alias-int": set(), "leaf-array-for": set()}
+REQUIRES = {"mid-inner-ext": {"mid-inner"}, "mid-inner-two": {"mid-inner"}, "mid-deepref": {"leaf-sub"}, "leaf-ext2": {"leaf-ext1"}, "leaf-ext3": {"leaf-ext2", "leaf-ext1"}, "pkg-split": {"pkg"}, "alias-int": set(), "leaf-array-for": set()}
 
 
 def der(x):
@@ -110,6 +111,14 @@ def build(fs):
     if has("leaf-output"):
         leaf.comps.append(Comp("o", prefixes=("output",)))
         leaf.eqs.append(("eq", V("o"), B("*", N(2), V("x"))))
+    if has("leaf-io-alias"):
+        # input / output members whose type is an alias of a builtin (and a plain Integer / Boolean one)
+        for t, b in (("AR", "Real"), ("AI", "Integer"), ("AB", "Boolean")):
+            if not any(c.name == t for c in low):
+                low.append(Cls(t, kind="type", base=b))
+        leaf.comps += [Comp("ua", "AR", prefixes=("input",)), Comp("oa", "AR", prefixes=("output",)), Comp("ui", "AI", prefixes=("input",)),
+                       Comp("ob", "AB", prefixes=("output",)), Comp("un", "Integer", prefixes=("input",))]  # fmt: skip
+        leaf.eqs += [("eq", V("oa"), B("+", V("ua"), V("x"))), ("eq", V("ob"), B(">", V("ui"), V("un")))]
     if has("leaf-ieq"):
         # an inherited initial equation when x lives in a base class
         (leafbase if leafbase is not None else leaf).ieqs.append(("eq", V("x"), V("k")))
@@ -139,9 +148,28 @@ def build(fs):
         mid.comps += [Comp("c3", "Leaf"), Comp("s2")]
         mid.eqs.append(("eq", V("s2"), B("-", V("c3.x"), V("a.x"))))
     if has("mid-inner"):
-        mid.classes.append(Cls("Inner", comps=[Comp("z")], eqs=[("eq", V("z"), N(1))]))
+        inner = Cls("Inner", comps=[Comp("z")], eqs=[("eq", V("z"), N(1))])
+        if has("mid-inner-ext"):
+            # the nested class inherits from a class of the enclosing scope and holds a component of a class
+            # that itself extends another one
+            midlow.append(Cls("InnerBase", comps=[Comp("ib"), Comp("ik", prefixes=("parameter",), value=N(3))], eqs=[("eq", V("ib"), V("ik"))]))
+            midlow.append(Cls("InnerDerived", exts=[Ext("InnerBase")], comps=[Comp("idv")], eqs=[("eq", V("idv"), B("*", N(2), V("ib")))]))
+            inner.exts.append(Ext("InnerBase"))
+            inner.comps.append(Comp("dd", "InnerDerived"))
+            inner.eqs.append(("eq", V("z"), B("+", V("ib"), V("dd.idv"))))
+            inner.eqs.pop(0)
+        mid.classes.append(inner)
         mid.comps += [Comp("inn", "Inner"), Comp("si")]
         mid.eqs.append(("eq", V("si"), B("*", V("inn.z"), V("s"))))
+        if has("mid-inner-two"):
+            mid.comps.append(Comp("inn2", "Inner"))
+            mid.eqs.append(("eq", V("si"), V("inn2.z")) if False else ("eq", B("-", V("inn2.z"), V("inn.z")), N(0)))
+    if has("mid-io-alias"):
+        for t, b in (("AR", "Real"),):
+            if not any(c.name == t for c in low):
+                low.append(Cls(t, kind="type", base=b))
+        mid.comps += [Comp("mua", "AR", prefixes=("input",)), Comp("moa", "AR", prefixes=("output",))]
+        mid.eqs.append(("eq", V("moa"), B("*", V("mua"), N(2))))
     if has("mid-input"):
         mid.comps += [Comp("mu", prefixes=("input",)), Comp("mux")]
         mid.eqs.append(("eq", V("mux"), B("+", V("mu"), V("a.x"))))
